@@ -10,6 +10,10 @@ FEATURE_KINDS = [
     ('b', np.bool_, ()),
     ('f32v', np.float32, (3,)),
     ('bytes', object, ()),
+    ('s5', 'S5', ()),        # fixed-width bytes column
+    ('u3', 'U3', (2,)),      # fixed-width unicode column with a trailing dimension
+    ('f16', np.float16, ()),
+    ('zw', np.float32, (0,)),  # zero-width trailing dimension
 ]
 
 
@@ -21,6 +25,13 @@ def make_column(rng, kind, n, offset=0):
     flat = col.reshape(-1)
     for i in range(flat.shape[0]):
       flat[i] = bytes(rng.randint(1, 256, size=rng.randint(1, 4)).astype(np.uint8))
+    return col
+  if isinstance(dtype, str):
+    col = np.empty(shape, dtype=dtype)
+    flat = col.reshape(-1)
+    for i in range(flat.shape[0]):
+      word = ''.join(chr(97 + int(c)) for c in rng.randint(0, 26, size=rng.randint(1, 4)))
+      flat[i] = word.encode() if dtype.startswith('S') else word
     return col
   if dtype == np.bool_:
     return np.ones(shape, dtype=np.bool_) if rng.rand() < 0.5 else (rng.rand(*shape) < 0.7)
